@@ -49,7 +49,7 @@ theorem inv_UdpProtocol : UdpProtocol.fields = ["num_players", "handles", "send_
   "disconnect_notify_sent", "disconnect_event_sent", "disconnect_timeout", "disconnect_notify_start", "shutdown_timeout",
   "fps", "magic", "peer_addr", "remote_magic", "peer_connect_status", "pending_output", "last_acked_input", "max_prediction",
   "recv_inputs", "time_sync_layer", "local_frame_advantage", "remote_frame_advantage", "stats_start_time", "round_trip_time",
-  "last_send_time", "last_sync_request_time", "last_recv_time", "pending_checksums", "desync_detection"] := by decide
+  "round_trip_time_measured",  "last_send_time", "last_sync_request_time", "last_recv_time", "pending_checksums", "desync_detection"] := by decide
 theorem inv_PlayerRegistry : PlayerRegistry.fields = ["handles", "remotes", "spectators"] := by decide
 theorem inv_P2PSession : P2PSession.fields = ["num_players", "max_prediction", "sync_layer", "sparse_saving", "disconnect_frame",
   "state", "fps", "socket", "player_reg", "local_connect_status", "next_spectator_frame", "next_recommended_sleep",
